@@ -17,6 +17,7 @@
 #include "gomp_shim.hpp"
 #include "../opseq/ops.hpp"
 #include "TasmanianOptimization.hpp"
+#include "tsgSequenceOptimizer.hpp"
 #include <limits.h>
 #include <sched.h>
 using namespace TasGrid;
@@ -24,7 +25,7 @@ using namespace TasGrid;
 // ================================================================================================ histories
 struct Hist { std::string name, cfg; std::vector<std::string> steps; int tier; // 0 = quick and thorough, 1 = thorough only
     std::string steps_str() const{ std::string s; for(auto &t : steps){ if (!s.empty()) s += " "; s += t; } return s; }
-    std::string fam() const{ if (cfg.compare(0, 3, "pso") == 0) return "pso"; size_t p = cfg.find("fam="); size_t e = cfg.find(';', p); return cfg.substr(p + 4, e - p - 4); } };
+    std::string fam() const{ if (cfg.compare(0, 3, "pso") == 0) return "pso"; if (cfg.compare(0, 3, "opt") == 0) return "optimizer"; size_t p = cfg.find("fam="); size_t e = cfg.find(';', p); return cfg.substr(p + 4, e - p - 4); } };
 static std::vector<std::string> words(const std::string &s){ std::vector<std::string> w; std::istringstream in(s); std::string t; while(in >> t) w.push_back(t); return w; }
 
 struct Ctx { TasmanianSparseGrid g; ea::Ref ref; tg::Cfg cfg; std::vector<double> num; std::string sx; bool pso = false; std::vector<int> psoarg; };
@@ -47,7 +48,7 @@ static void run_pso(Ctx &c){
     long cnt = 0; auto rng = [&]()->double{ cnt++; return 0.05 + 0.9 * (double) ((cnt * 37) % 101) / 101.0; };
     ParticleSwarmState st(nd, np); st.initializeParticlesInsideBox(std::vector<double>((size_t) nd, -1.0), std::vector<double>((size_t) nd, 1.0), rng);
     auto f = [nd](const std::vector<double> &x, std::vector<double> &y){ for(size_t i=0;i<y.size();i++){ double s = 0; for(int j=0;j<nd;j++){ double t = x[i*nd+j] - 0.2 * (j + 1); s += t * t * (1 + j) + 0.1 * std::sin(5 * x[i*nd+j]); } y[i] = s; } };
-    auto inside = [nd, dom](const std::vector<double> &x)->bool{ for(int j=0;j<nd;j++) if (std::abs(x[j]) > 1.0) return false; if (dom == 1 && x[0] > 0.5) return false; return true; };
+    auto inside = [nd, dom](const std::vector<double> &x)->bool{ for(int j=0;j<nd;j++) if (std::abs(x[j]) > 1.0) return false; if (dom == 1 && x[0] > 0.5) return false; if (dom == 2) return false; return true; };
     ParticleSwarm(f, inside, 0.5, 2.0, 2.0, it, st, rng);
     add(c, st.getParticlePositions()); add(c, st.getParticleVelocities()); add(c, st.getBestParticlePositions()); c.sx += " rng=" + std::to_string(cnt);
 }
@@ -59,11 +60,18 @@ static void run_step(Ctx &c, const std::string &s){
     auto A = [&](size_t i, long def)->long{ return i < a.size() ? a[i] : def; };
     TasmanianSparseGrid &g = c.g; int d = g.getNumDimensions(), outs = g.getNumOutputs();
     if (k == "pso"){ run_pso(c); return; }
+    if (k == "nextnode"){ // internal entry point (the public route needs > 50 nodes and takes 35-70 s per call): next greedy node after the first n nodes of the rule
+        int n = c.psoarg[1]; double r = 0;
+        switch(c.psoarg[0]){ case 0: r = Optimizer::getNextNode<rule_leja>(Optimizer::getGreedyNodes<rule_leja>(n)); break; case 1: r = Optimizer::getNextNode<rule_maxlebesgue>(Optimizer::getGreedyNodes<rule_maxlebesgue>(n)); break;
+                              case 2: r = Optimizer::getNextNode<rule_minlebesgue>(Optimizer::getGreedyNodes<rule_minlebesgue>(n)); break; default: r = Optimizer::getNextNode<rule_mindelta>(Optimizer::getGreedyNodes<rule_mindelta>(n)); break; }
+        c.num.push_back(r); return; }
     if (g.empty()){ c.sx += " empty"; return; }
     if (k == "batch"){ if (g.getNumLoaded() == 0 || outs == 0){ c.sx += " pruned"; return; } auto x = probes(c, (int) A(0, 40)); std::vector<double> y; g.evaluateBatch(x, y); add(c, y); return; }
     if (k == "eval"){ if (g.getNumLoaded() == 0 || outs == 0){ c.sx += " pruned"; return; } auto x = probes(c, 3); for(int t=0;t<3;t++){ std::vector<double> y; g.evaluate(std::vector<double>(x.begin() + t*d, x.begin() + (t+1)*d), y); add(c, y); } return; }
     if (k == "hdense"){ auto x = probes(c, (int) A(0, 35)); std::vector<double> y; g.evaluateHierarchicalFunctions(x, y); add(c, y); return; }
     if (k == "hsparse"){ if (!(g.isLocalPolynomial() || g.isWavelet())){ c.sx += " pruned"; return; } auto x = probes(c, (int) A(0, 70)); std::vector<int> pn, ix; std::vector<double> v; g.evaluateSparseHierarchicalFunctions(x, pn, ix, v); addi(c, "pntr", pn); addi(c, "indx", ix); add(c, v); return; }
+    if (k == "hsparsestatic"){ if (!(g.isLocalPolynomial() || g.isWavelet())){ c.sx += " pruned"; return; } int n = (int) A(0, 33); auto x = probes(c, n); int nz = g.evaluateSparseHierarchicalFunctionsGetNZ(x.data(), n); c.sx += " nz=" + std::to_string(nz);
+        std::vector<int> pn((size_t) n + 1), ix((size_t) nz); std::vector<double> v((size_t) nz); g.evaluateSparseHierarchicalFunctionsStatic(x.data(), n, pn.data(), ix.data(), v.data()); addi(c, "pntr", pn); addi(c, "indx", ix); add(c, v); return; }
     if (k == "quad"){ add(c, g.getQuadratureWeights()); return; }
     if (k == "interp"){ auto x = probes(c, 2); for(int t=0;t<2;t++) add(c, g.getInterpolationWeights(std::vector<double>(x.begin() + t*d, x.begin() + (t+1)*d))); return; }
     if (k == "diffw"){ auto x = probes(c, 2); for(int t=0;t<2;t++) add(c, g.getDifferentiationWeights(std::vector<double>(x.begin() + t*d, x.begin() + (t+1)*d))); return; }
@@ -97,7 +105,7 @@ static void observe(Ctx &c, Obs &o, bool ascii){
 // runs a history; after(step index, ctx) is called after every step (step 0 = make)
 static void run_history(const Hist &h, const std::function<void(int, Ctx&)> &after){
     Ctx c;
-    if (h.cfg.compare(0, 3, "pso") == 0){ c.pso = true; auto v = vf::jints(h.cfg.substr(3)); c.psoarg.assign(v.begin(), v.end()); }
+    if (h.cfg.compare(0, 3, "pso") == 0 || h.cfg.compare(0, 3, "opt") == 0){ c.pso = true; auto v = vf::jints(h.cfg.substr(3)); c.psoarg.assign(v.begin(), v.end()); }
     else c.cfg = tg::Cfg::parse(h.cfg);
     for(int i = -1; i < (int) h.steps.size(); i++){
         c.num.clear(); c.sx.clear();
@@ -116,17 +124,17 @@ static std::vector<Hist> histories(){
     for(int d : {2, 3}){
         std::string D = std::to_string(d), dd = ";d=" + D + ";o=2";
         // ---- local polynomial: refinement strategies (refsurp:tol,criteria,output,scale,limits,overload), construction, sparse/dense basis, removal
-        struct LP { const char *rule; int order; int tier; }; const LP lps[] = { {"localp",1,0}, {"localp",2,0}, {"localp",0,1}, {"localp",3,1}, {"semi-localp",2,0}, {"localp-boundary",1,0}, {"localp-boundary",2,1}, {"localp-zero",1,1}, {"localp-zero",2,0}, {"semi-localp",3,1}, {"localp",-1,1} };
+        struct LP { const char *rule; int order; int tier; }; const LP lps[] = { {"localp",1,0}, {"localp",2,1}, {"localp",0,0}, {"localp",3,1}, {"semi-localp",2,0}, {"localp-boundary",1,0}, {"localp-boundary",2,1}, {"localp-zero",1,1}, {"localp-zero",2,0}, {"semi-localp",3,1}, {"localp",-1,1} };
         for(auto &lp : lps){
-            std::string cfg = std::string("fam=localp;rule=") + lp.rule + dd + ";depth=" + (d == 2 ? "3" : "2") + ";type=level;order=" + std::to_string(lp.order);
+            std::string cfg = std::string("fam=localp;rule=") + lp.rule + dd + ";depth=" + ((d == 2 && lp.order != 0) ? "3" : "2") + ";type=level;order=" + std::to_string(lp.order);
             std::string nm = std::string("localp:") + lp.rule + ":o" + std::to_string(lp.order) + ":" + D + "d";
             int t3 = (d == 3) ? std::max(lp.tier, (lp.order == 1 || std::string(lp.rule) == "semi-localp") ? 0 : 1) : lp.tier;
-            addh(t3, nm + ":refine", cfg, "load:3 @batch:40 refsurp:1,0,-1 load:3 refsurp:1,3,-1 load:3 refsurp:1,4,0 load:3 refsurp:1,1,-1 load:3 refsurp:1,2,1 load:3 @hsparse:70 @hdense:20 @quad @interp @integrate @diff @diffw @inth");
+            addh(t3, nm + ":refine", cfg, "load:3 @batch:40 refsurp:1,0,-1 load:3 refsurp:1,3,-1 load:3 refsurp:1,4,0 load:3 refsurp:1,1,-1 load:3 refsurp:1,2,1 load:3 @hsparse:70 @hsparsestatic:33 @hdense:20 @quad @interp @integrate @diff @diffw @inth");
             addh(std::max(t3, d == 3 ? 1 : 0), nm + ":construct", cfg, "load:3 begin cand:0,0 deliver:5,0 deliver:1,1 cand:1,3 deliver:0,0,0,0,0 finish @batch:40 refsurp:1,3,-1,2,0,1 refsurp:3,4,0,1,0,1 merge @remove:0 @remove:7 @copy @batch:20");
         }
         // limits, 0 outputs, domain transform (scaled quadrature weights)
         addh(0, "localp:limits:" + D + "d", "fam=localp;rule=localp" + dd + ";depth=2;type=level;order=1;lim=" + (d == 2 ? "3,2" : "2,3,2"), "load:3 refsurp:0,0,-1 load:3 refsurp:0,3,-1,0,4 load:3 refsurp:0,4,-1 @batch:30 @quad");
-        addh(1, "localp:transform:" + D + "d", "fam=localp;rule=localp" + dd + ";depth=3;type=level;order=2;ta=" + (d == 2 ? "-1,0.5" : "-1,0.5,2") + ";tb=" + (d == 2 ? "2,3" : "2,3,5"), "load:0 @quad @batch:30 @interp @integrate @diff refsurp:1,3,-1 load:0 @quad");
+        addh(d == 2 ? 0 : 1, "localp:transform:" + D + "d", "fam=localp;rule=localp" + dd + ";depth=3;type=level;order=2;ta=" + (d == 2 ? "-1,0.5" : "-1,0.5,2") + ";tb=" + (d == 2 ? "2,3" : "2,3,5"), "load:0 @quad @batch:30 @interp @integrate @diff refsurp:1,3,-1 load:0 @quad");
         // ---- wavelets (sparse solver, matrix assembly); kept small: a load costs about one region per point, fds/direction refinement one small solve per point and direction
         if (d == 2){
             addh(0, "wavelet:o1:2d:fds-stable", "fam=wavelet;rule=wavelet;d=2;o=1;depth=0;type=level;order=1", "load:3 refsurp:1,3,0 load:3 @quad refsurp:1,4,0 load:3 refsurp:1,1,-1");
@@ -142,7 +150,7 @@ static std::vector<Hist> histories(){
         for(auto &sq : sqs){
             std::string cfg = std::string("fam=sequence;rule=") + sq.rule + dd + ";depth=" + (d == 2 ? "4" : "3") + ";type=iptotal";
             std::string nm = std::string("sequence:") + sq.rule + ":" + D + "d";
-            addh(sq.tier, nm + ":refine", cfg, "load:0 @batch:40 @aniso:1,0 @aniso:2,-1 refaniso:1,3,0 load:0 refaniso:2,1,-1 load:0 refsurpgs:1,0 load:0 refsurpgs:3,0,-1 update:5,0 load:0 update:4,2,0,2 update:5,3,0,1 load:0" + OBS + " @inth @polyspace:1 @polyspace:0");
+            addh(sq.tier, nm + ":refine", cfg, "load:0 @batch:40 @aniso:1,0 @aniso:2,-1 refaniso:1,3,0 load:0 refaniso:2,1,-1 load:0 refsurpgs:1,0 load:0 refsurpgs:3,0,-1 update:5,0 load:0 update:" + std::string(d == 2 ? "4" : "2") + ",2,0,2 update:5,3,0,1 load:0" + OBS + " @inth @polyspace:1 @polyspace:0");
             addh(std::max(sq.tier, d == 3 ? 1 : 0), nm + ":construct", cfg, "load:0 begin cand:0,1 deliver:4,0 cand:0,1,1 deliver:3,1,1 deliver:0,0,0,1 finish @batch:40 merge @copy @hdense:10");
         }
         // ---- global grids: nested, non-nested, greedy sequences (node optimiser), curved weights with negative sum (non-lower selection)
@@ -154,7 +162,7 @@ static std::vector<Hist> histories(){
             std::string aw = (d == 2) ? gl.aw2 : gl.aw3; int depth = (d == 2) ? gl.depth2 : gl.depth3;
             std::string cfg = std::string("fam=global;rule=") + gl.rule + dd + ";depth=" + std::to_string(depth) + ";type=" + gl.type + (aw.empty() ? "" : ";aw=" + aw);
             std::string nm = std::string("global:") + gl.rule + ":" + gl.type + ":" + D + "d";
-            addh(std::max(gl.tier, (d == 3 && std::string(gl.rule) != "clenshaw-curtis") ? 1 : 0), nm + ":refine", cfg, "load:0 @batch:40 @aniso:1,0 refaniso:1,3,0 load:0 refsurpgs:1,0 load:0 update:" + std::to_string(depth + 1) + ",0 load:0 update:" + std::to_string(depth + 1) + ",2,0,2 update:" + std::to_string(depth + 1) + ",3,0,1 load:0" + OBS + " @diffw @polyspace:1 @polyspace:0");
+            addh(std::max(gl.tier, (d == 3 && std::string(gl.rule) != "clenshaw-curtis") ? 1 : 0), nm + ":refine", cfg, "load:0 @batch:40 @aniso:1,0 refaniso:1,3,0 load:0 refsurpgs:1,0 load:0 update:" + std::to_string(depth + 1) + ",0 load:0 update:" + std::to_string(d == 2 ? depth + 1 : 2) + ",2,0,2 update:" + std::to_string(depth + 1) + ",3,0,1 load:0" + OBS + " @diffw @polyspace:1 @polyspace:0");
             addh(std::max(gl.tier, d == 3 ? 1 : 0), nm + ":construct", cfg, "load:0 begin cand:0,1 deliver:4,0 cand:0,1,1 deliver:3,1,1 deliver:0,0,0,1 finish @batch:40 merge @copy @quad");
         }
         addh(d == 2 ? 0 : 1, "global:nonlower:" + D + "d", "fam=global;rule=gauss-legendre;d=" + D + ";o=0;depth=4;type=curved;aw=" + (d == 2 ? "1,1,-2,-2" : "1,1,1,-2,-2,-2"), "@quad @interp @points @polyspace:0");
@@ -164,6 +172,9 @@ static std::vector<Hist> histories(){
         addh(d == 2 ? 0 : 1, "fourier:" + D + "d:construct", "fam=fourier;rule=fourier" + dd + ";depth=1;type=iptotal", "load:4 begin cand:0,1 deliver:4,0 cand:0,1,1 deliver:3,1,1 deliver:0,0,0,1 finish @batch:40 merge @copy @batch:10");
     }
     // ---- particle swarm (pso<particles>,<dims>,<iterations>,<domain>)
+    addh(0, "pso:5x2:nothing-inside", "pso5,2,3,2", "@pso");
+    // ---- node optimiser with nested regions (min-lebesgue / min-delta evaluate a nested maximisation in every interval): rule (0 leja, 1 max-lebesgue, 2 min-lebesgue, 3 min-delta), nodes
+    addh(1, "optimizer:min-lebesgue:5", "opt2,5", "@nextnode"); addh(1, "optimizer:min-delta:5", "opt3,5", "@nextnode"); addh(1, "optimizer:max-lebesgue:7", "opt1,7", "@nextnode");
     addh(0, "pso:6x2", "pso6,2,6,0", "@pso"); addh(0, "pso:7x3:halfspace", "pso7,3,5,1", "@pso"); addh(1, "pso:9x2:halfspace", "pso9,2,8,1", "@pso");
     return H;
 }
@@ -215,6 +226,17 @@ static std::string compare(Ctx &c, Obs &o, const Obs &ref, std::string &detail){
             else { detail = "serialised structure differs (token " + std::to_string(i) + " of the ASCII write): omp '" + ta[i] + "' serial '" + tb[i] + "'"; return "struct"; } }
     }
     dt << "max relative difference " << worst; detail = dt.str(); return "rounding";
+}
+// "data-race:TasmanianFourierTransform::fast_fourier_transform1D" from a ThreadSanitizer report: kind + first Tasmanian frame of the first stack
+static std::string tsan_class(const std::string &err){
+    std::string kind = "report", fn = "?"; size_t p = err.find("ThreadSanitizer: ");
+    if (p != std::string::npos){ size_t e = err.find_first_of("(\n", p + 17); kind = err.substr(p + 17, e - (p + 17)); while(!kind.empty() && kind.back() == ' ') kind.pop_back(); for(char &c : kind) if (c == ' ') c = '-'; }
+    size_t q = p == std::string::npos ? 0 : p;
+    while((q = err.find("\n    #", q)) != std::string::npos){ size_t b = err.find(' ', q + 6); size_t e = err.find('\n', q + 1); if (b == std::string::npos) break; std::string line = err.substr(b + 1, e - b - 1);
+        size_t t = std::string::npos; for(const char *ns : {"TasGrid::", "TasOptimization::", "TasDREAM::"}){ size_t u = line.find(ns); if (u != std::string::npos && (t == std::string::npos || u < t)) t = u; }
+        if (t != std::string::npos && line.compare(0, 5, "std::") != 0){ fn = gs::short_name(line.substr(t)); size_t h = fn.find('#'); if (h != std::string::npos) fn = fn.substr(0, h); break; }
+        q = e == std::string::npos ? err.size() : e; }
+    return kind + ":" + fn;
 }
 static std::string kind_of(const std::string &verdict){ return verdict == "struct" ? "structure-differs" : "numeric-differs"; }
 
@@ -429,7 +451,10 @@ int main(int argc, char **argv){
       if (access(g_refbin.c_str(), X_OK) != 0){ vf::emit(vf::J().s("t","error").s("what","serial reference harness missing: " + g_refbin)); return 0; } }
 #ifdef GS_FREE
     // ---------------------------------------------------------------- free-running ThreadSanitizer pass
-    std::vector<int> teams = (tier == "quick") ? std::vector<int>{2, 3} : std::vector<int>{2, 3, 4}; int reps = (tier == "quick") ? 1 : 2;
+    std::vector<int> teams = (tier == "quick") ? std::vector<int>{2, 3} : std::vector<int>{2, 3, 4}; int reps = (int) A.geti("--reps", 1);
+    if (A.has("--replay")){ // re-run the recorded history / team size (a race report depends on real timing: up to 5 runs)
+        std::string v = vf::slurp(A.get("--replay")); std::string cs = vf::jget(v, "case"); Hist h; h.name = vf::jget(cs, "history"); h.cfg = vf::jget(cs, "cfg"); h.steps = words(vf::jget(cs, "steps")); h.tier = 0;
+        H.assign(1, h); teams.assign(1, atoi(vf::jget(cs, "team").c_str())); reps = 5; workers = 1; }
     struct FU { size_t h; int T; }; std::vector<FU> U; for(size_t i=0;i<H.size();i++) for(int T : teams) U.push_back({i, T});
     size_t done = vf::parallel_units(U.size(), workers, [&](size_t ui){
         const Hist &h = H[U[ui].h]; int T = U[ui].T; std::string unit = "tsan:" + h.name + ":T" + std::to_string(T); std::vector<Obs> ref; std::string err;
@@ -440,7 +465,7 @@ int main(int argc, char **argv){
                 run_history(h, [&](int si, Ctx &c){ Obs ob; observe(c, ob, false); std::string detail; std::string v = compare(c, ob, ref[(size_t) si], detail); if (v == "struct" || v == "numeric"){ vf::wr(fd, "V " + v + " " + step_name(h, si) + " after step " + std::to_string(si) + ": " + detail + "\n"); } else if (v == "rounding") res = "rounding"; });
                 vf::wr(fd, "DONE " + res + " regions=" + std::to_string(gs::n_regions) + "\n"); }, 600.0); ex++;
             std::string cs = vf::J().s("history", h.name).s("cfg", h.cfg).s("steps", h.steps_str()).i("team", T).s("mode", "tsan-free-run").str();
-            if (o.kind != vf::Outcome::OK){ nv++; vf::violation("C13:" + std::string(o.kind == vf::Outcome::SANITIZER ? o.sanitizer_class() : "free-run:" + o.describe()) + ":" + h.fam(), unit, cs, o.err.substr(0, 2500)); break; }
+            if (o.kind != vf::Outcome::OK){ nv++; vf::violation("C13:" + std::string(o.kind == vf::Outcome::SANITIZER ? "tsan:" + tsan_class(o.err) : "free-run:" + o.describe() + ":" + h.fam()), unit, cs, o.err.substr(0, 6000)); break; }
             size_t p = 0; while((p = o.out.find("V ", p)) != std::string::npos && (p == 0 || o.out[p-1] == '\n')){ size_t e = o.out.find('\n', p); std::string l = o.out.substr(p + 2, e - p - 2); std::string v = l.substr(0, l.find(' ')); std::string rest = l.substr(l.find(' ') + 1); nv++;
                 vf::violation("C13:" + kind_of(v) + ":" + h.fam() + ":" + rest.substr(0, rest.find(' ')) + ":free-run", unit, cs, "free-running team of " + std::to_string(T) + ": " + rest); p = e; }
             verdicts.insert(o.out.substr(o.out.rfind("DONE")));
@@ -465,24 +490,31 @@ int main(int argc, char **argv){
     vf::parallel_units(H.size(), workers, [&](size_t hi){
         pin_worker(); vf::Outcome o = vf::run_child([&](int fd){ vs::outfd = fd; vs::max_steps = 400000; vs::begin_main(); gs::team_size = 2; std::string prof; long lastr = 0; double lastt = vf::now();
             run_history(H[hi], [&](int si, Ctx &c){ Obs ob; long r1 = gs::n_regions; double t1 = vf::now(); observe(c, ob, false); char b[200]; snprintf(b, sizeof(b), "P %s step %d %s: %ld regions %.1f ms, observe %ld regions %.1f ms, points %d+%d\n", H[hi].name.c_str(), si, step_name(H[hi], si).c_str(), r1 - lastr, 1e3 * (t1 - lastt), gs::n_regions - r1, 1e3 * (vf::now() - t1), c.pso ? 0 : c.g.getNumLoaded(), c.pso ? 0 : c.g.getNumNeeded()); prof += b; lastr = gs::n_regions; lastt = vf::now(); }); vs::end_main();
-            std::string s = prof + "R " + std::to_string(gs::n_regions) + " " + std::to_string(gs::n_nested) + "\n"; for(auto &f : gs::region_fns) s += "F " + std::to_string(f.second) + " " + gs::fn_name(sym, f.first, false) + "\n"; vf::wr(fd, s); }, 300.0);
+            std::string s = prof + "R " + std::to_string(gs::n_regions) + " " + std::to_string(gs::n_nested) + "\n"; for(auto &f : gs::region_fns) s += "F " + std::to_string(f.second) + " " + gs::fn_name(sym, f.first, false) + "\n"; for(auto &f : gs::nested_fns) s += "N " + std::to_string(f.second) + " " + gs::fn_name(sym, f.first, false) + "\n"; vf::wr(fd, s); }, 300.0);
         FILE *f = fopen((tag + std::to_string(hi)).c_str(), "w"); if (f){ fputs(o.kind == vf::Outcome::OK ? o.out.c_str() : "FAILED\n", f); fclose(f); }
     });
-    std::vector<long> nreg(H.size(), 0); std::map<std::string,long> covered; long nested_total = 0;
+    std::vector<long> nreg(H.size(), 0); std::vector<double> hms(H.size(), 0); std::map<std::string,long> covered, nested_cov; long nested_total = 0;
     for(size_t hi=0; hi<H.size(); hi++){ std::string s = vf::slurp(tag + std::to_string(hi)); unlink((tag + std::to_string(hi)).c_str()); std::istringstream in(s); std::string line;
-        while(std::getline(in, line)){ if (line.compare(0, 2, "P ") == 0){ if (A.has("--profile")) fprintf(stderr, "%s\n", line.c_str()); } else if (line.compare(0, 2, "R ") == 0){ long a = 0, b = 0; sscanf(line.c_str() + 2, "%ld %ld", &a, &b); nreg[hi] = a; nested_total += b; } else if (line.compare(0, 2, "F ") == 0){ size_t p = line.find(' ', 2); covered[line.substr(p + 1)] += atol(line.c_str() + 2); } } }
-    if (A.has("--profile")){ for(size_t hi=0; hi<H.size(); hi++) fprintf(stderr, "H %s regions %ld\n", H[hi].name.c_str(), nreg[hi]); return 0; }
+        while(std::getline(in, line)){ if (line.compare(0, 2, "P ") == 0){ if (A.has("--profile")) fprintf(stderr, "%s\n", line.c_str()); size_t q = line.find(" regions "); if (q != std::string::npos) hms[hi] += atof(line.c_str() + q + 9); q = line.find(" regions ", q + 1); if (q != std::string::npos) hms[hi] += atof(line.c_str() + q + 9); } else if (line.compare(0, 2, "R ") == 0){ long a = 0, b = 0; sscanf(line.c_str() + 2, "%ld %ld", &a, &b); nreg[hi] = a; nested_total += b; } else if (line.compare(0, 2, "F ") == 0){ size_t p = line.find(' ', 2); covered[line.substr(p + 1)] += atol(line.c_str() + 2); } else if (line.compare(0, 2, "N ") == 0){ size_t p = line.find(' ', 2); nested_cov[line.substr(p + 1)] += atol(line.c_str() + 2); } } }
+    std::string coverage_note;
+    // ---- coverage of the universe of outlined parallel functions
+    { std::vector<std::string> missing; long universe = 0; std::set<std::string> uniq; for(auto &p : sym.byoff) uniq.insert(p.second); universe = (long) uniq.size(); std::string nonly; for(auto &n : uniq) if (!covered.count(n)){ if (nested_cov.count(n)) nonly += (nonly.empty() ? "" : ", ") + gs::short_name(n, true); else missing.push_back(gs::short_name(n, true)); }
+      std::sort(missing.begin(), missing.end()); missing.erase(std::unique(missing.begin(), missing.end()), missing.end());
+      std::string m; for(auto &x : missing){ if (!m.empty()) m += ", "; m += x; } long regs = 0; for(long r : nreg) regs += r;
+      coverage_note = ("region coverage: " + std::to_string(covered.size()) + " of " + std::to_string(universe) + " outlined OpenMP parallel functions of the executable (template instances counted separately) are executed by the " + std::to_string(H.size()) + " histories (" + std::to_string(regs) + " region executions per team size, " + std::to_string(nested_total) + " nested regions serialised); executed only as nested regions (team of one, not explored): " + (nonly.empty() ? "none" : nonly) + "; not executed: " + (m.empty() ? "none" : m)); }
+    if (A.has("--profile")){ fprintf(stderr, "%s\n", coverage_note.c_str()); for(size_t hi=0; hi<H.size(); hi++) fprintf(stderr, "H %s regions %ld ms %.1f\n", H[hi].name.c_str(), nreg[hi], hms[hi]); return 0; }
     // ---- work units: (history, team size, range of regions, deviation bound, choice-point set)
     // phase A: every history of the tier, every team size, bound kA, all choice points;
     // phase B (thorough): the core histories (those of the quick tier), teams kB_teams, bound 2, without the choice points after critical exit /
     //          loop-end-nowait (no visible operation follows them before the next choice point, so no behaviour is lost under data-race freedom)
+    auto coreB = [](const Hist &h)->bool{ return h.tier == 0 && (h.name.find("2d") != std::string::npos || h.fam() == "pso" || h.name == "localp:localp:o1:3d:refine"); };
     struct WU { size_t h; int T; long r0, r1; int bound; bool fine; }; std::vector<WU> W; long per = A.geti("--regions-per-unit", tier == "quick" ? 60 : 30);
     int kA = A.has("--bound") ? bound : 1; bool phaseB = (tier != "quick") && !A.has("--bound"); std::vector<int> teamsB = {2, 3}; if (A.has("--teams2")){ auto v = vf::jints(A.get("--teams2")); teamsB.assign(v.begin(), v.end()); }
     bool fineA = !A.has("--coarse");
     for(size_t hi=0; hi<H.size(); hi++){ W.push_back({hi, 1, 0, 0, 0, true}); for(int T : teams){ long R = std::max<long>(nreg[hi], 1); for(long r = 0; r < R; r += per) W.push_back({hi, T, r, (r + per >= R) ? LONG_MAX : r + per, kA, fineA}); } }
     std::stable_sort(W.begin(), W.end(), [](const WU &a, const WU &b){ return a.T > b.T; });   // larger teams first (the most expensive units)
     size_t nA = W.size(); long perB = std::max<long>(per / 4, 5);
-    if (phaseB) for(int T : std::vector<int>(teamsB.rbegin(), teamsB.rend())) for(size_t hi=0; hi<H.size(); hi++){ if (H[hi].tier != 0) continue; long R = std::max<long>(nreg[hi], 1); for(long r = 0; r < R; r += perB) W.push_back({hi, T, r, (r + perB >= R) ? LONG_MAX : r + perB, 2, false}); }
+    if (phaseB) for(int T : std::vector<int>(teamsB.rbegin(), teamsB.rend())) for(size_t hi=0; hi<H.size(); hi++){ if (!coreB(H[hi])) continue; long R = std::max<long>(nreg[hi], 1); for(long r = 0; r < R; r += perB) W.push_back({hi, T, r, (r + perB >= R) ? LONG_MAX : r + perB, 2, false}); }
     size_t done = vf::parallel_units(W.size(), workers, [&](size_t ui){
         pin_worker(); const WU &u = W[ui]; const Hist &h = H[u.h]; static std::map<size_t, std::vector<Obs>> cache; std::string err;
         if (!cache.count(u.h)){ std::vector<Obs> ref; if (!get_ref(h, ref, err)){ vf::emit(vf::J().s("t","error").s("what", err)); return; } cache[u.h] = ref; }
@@ -490,14 +522,10 @@ int main(int argc, char **argv){
         s.unit = h.name + ":T" + std::to_string(u.T) + (u.T > 1 ? ":k" + std::to_string(u.bound) + (u.fine ? "" : "c") + ":regions[" + std::to_string(u.r0) + "," + (u.r1 == LONG_MAX ? std::string("end") : std::to_string(u.r1)) + ")" : "");
         run_spine(s);
     });
-    std::string bound_text = std::to_string(H.size()) + " scripted histories (5 grid families, 2-D and 3-D, PSO); every history with a team of 1 and, for team sizes " + vf::jarr(teams) + ", per outermost parallel region all schedules with <= " + std::to_string(kA) + " deviation(s) from the default schedule (choice points: region start, critical entry" + (fineA ? "/exit" : "") + ", dynamic chunk acquisition, barrier release, " + (fineA ? "loop-end-nowait, " : "") + "thread end/join)";
-    if (phaseB){ long nb = 0; for(auto &h : H) if (h.tier == 0) nb++; bound_text += "; in addition the " + std::to_string(nb) + " core histories with team sizes " + vf::jarr(teamsB) + " and <= 2 deviations per region (choice points before every visible operation: region start, critical entry, chunk acquisition, barrier release, thread end/join)"; }
+    std::string bound_text = std::to_string(H.size()) + " scripted histories (5 grid families, 2-D and 3-D, PSO); every history with a team of 1 and, for team sizes " + vf::jarr(teams) + ", per outermost parallel region all schedules with <= " + std::to_string(kA) + " deviation(s) from the default schedule (choice points: region start, critical entry" + (fineA ? "/exit" : "") + ", dynamic chunk acquisition" + std::string(fineA ? " and chunk start" : "") + ", barrier release, " + (fineA ? "loop-end-nowait, " : "") + "thread end/join)";
+    if (phaseB){ long nb = 0; for(auto &h : H) if (coreB(h)) nb++; bound_text += "; in addition the " + std::to_string(nb) + " core histories (the 2-D and PSO histories of the quick tier and the 3-D localp history) with team sizes " + vf::jarr(teamsB) + " and <= 2 deviations per region (choice points before every visible operation: region start, critical entry, chunk acquisition, barrier release, thread end/join)"; }
     bound_text += std::string("; an execution merges with the default run at the end of the first step whose observation is bitwise identical to the serial build") + (tail_history ? " (disabled: every execution runs to the end of the history)" : ""); (void) nA;
-    // ---- coverage of the universe of outlined parallel functions
-    { std::vector<std::string> missing; long universe = 0; std::set<std::string> uniq; for(auto &p : sym.byoff) uniq.insert(p.second); universe = (long) uniq.size(); for(auto &n : uniq) if (!covered.count(n)) missing.push_back(gs::short_name(n));
-      std::sort(missing.begin(), missing.end()); missing.erase(std::unique(missing.begin(), missing.end()), missing.end());
-      std::string m; for(auto &x : missing){ if (!m.empty()) m += ", "; m += x; } long regs = 0; for(long r : nreg) regs += r;
-      vf::emit(vf::J().s("t","note").s("text", "region coverage: " + std::to_string(covered.size()) + " of " + std::to_string(universe) + " outlined OpenMP parallel functions of the executable (template instances counted separately) are executed by the " + std::to_string(H.size()) + " histories (" + std::to_string(regs) + " region executions per team size, " + std::to_string(nested_total) + " nested regions serialised); not executed (short names): " + (m.empty() ? "none" : m))); }
+    vf::emit(vf::J().s("t","note").s("text", coverage_note));
     vf::emit(vf::J().s("t","sample").raw("case", vf::J().s("history", H[0].name).s("cfg", H[0].cfg).s("steps", H[0].steps_str()).s("schedules", "default everywhere; inside region r (r = every outermost parallel region of the history in turn) every choice vector with <= " + std::to_string(phaseB ? 2 : kA) + " non-default choices").str()));
     for(size_t i = 1; i < H.size() && i < 6; i++) vf::emit(vf::J().s("t","sample").raw("case", vf::J().s("history", H[i * (H.size() / 6)].name).s("cfg", H[i * (H.size() / 6)].cfg).s("steps", H[i * (H.size() / 6)].steps_str()).str()));
     vf::emit(vf::J().s("t","summary").i("units_total", (long long) W.size()).i("units_done", (long long) done).s("bound", bound_text).b("exhaustive", done == W.size() && !vf::past_deadline()));
